@@ -102,6 +102,11 @@ def big(kind, n, tag):
     if kind == 'str':
         s = '<%s>' % tag
         return (s * (n // len(s) + 1))[:n]
+    if kind == 'utf8':
+        # text whose UTF-8 form mixes 1-, 2-, 3- and 4-byte characters: wherever a byte-sized block ends, it is likely to end
+        # inside a character
+        s = '<%s>\u20ac\u00e9\U0001d11e' % tag
+        return (s * (n // len(s) + 1))[:n]
     if kind == 'crstr':
         s = '<%s>\r\n\r ' % tag
         return (s * (n // len(s) + 1))[:n]
